@@ -81,7 +81,15 @@ func (c CurlyRouter) matchesRouteByPathTokens(routeTokens, requestTokens []strin
 			routeToken = removeCustomVerb(routeToken)
 		}
 
-		if strings.HasPrefix(routeToken, "{") {
+		if begin, end := strings.Index(routeToken, "{"), strings.LastIndex(routeToken, "}"); begin != -1 && end > begin &&
+			(begin > 0 || end < len(routeToken)-1) && !strings.Contains(routeToken, ":") {
+			// parameter with a fixed prefix and/or suffix, e.g. foo_{var}_bar ; those must be present in the request token
+			prefix, suffix := routeToken[:begin], routeToken[end+1:]
+			if len(requestToken) < len(prefix)+len(suffix) || !strings.HasPrefix(requestToken, prefix) || !strings.HasSuffix(requestToken, suffix) {
+				return false, 0, 0
+			}
+			paramCount++
+		} else if strings.HasPrefix(routeToken, "{") {
 			paramCount++
 			if colon := strings.Index(routeToken, ":"); colon != -1 {
 				// match by regex
